@@ -220,6 +220,12 @@ Proof.
       * apply body_res_stop; auto.
     + (* SCtx *)
       eapply body_res_ext; [apply Ext_ctx_observe|reflexivity|]. apply IH. now apply LinH_ctx_observe.
+    + (* SDetach *)
+      destruct (negb (op_fresh e k w)); [now apply IH|].
+      destruct (await_op_full e t k wr w) as [w1 rdy1] eqn:A.
+      assert (F : Frame w w1) by frame_of A.
+      match goal with |- body_res _ _ _ _ (run_steps _ _ _ _ _ ?wx) => assert (F2 : Frame w wx) by (destruct rdy1; [exact F|fr_auto]) end.
+      eapply body_res_frame; [exact F2|]. apply IH. eapply Frame_LinH; eauto.
 Qed.
 
 Lemma L_poll_body : forall e t wr bd w hs,
